@@ -122,6 +122,7 @@ class BuildResult:
         self.lemma_count = 0
         self.wall = 0.0
         self.forbidden: list[str] = []
+        self.other_translation_errors: list[str] = []
 
     def broken_obligation(self) -> str:
         if self.translation_errors:
@@ -185,6 +186,46 @@ def translate_and_make(targets: list[str], timeout: int = 1500) -> BuildResult:
         res.ok = False
     res.wall = time.time() - t0
     return res
+
+
+def scope_translation_errors(pid: str, res: BuildResult) -> None:
+    """A translation error counts against a property only if it concerns one of the property's anchored source files
+    (an error in another file still fails this property's build when one of its Coq files depends on the missing
+    definition: that is then reported by `make`)."""
+    files = {os.path.basename(f) for f in anchored_files(pid)}
+    mine, others = [], []
+    for e in res.translation_errors:
+        src = e.split(":", 1)[0].strip()
+        (mine if (src in files or (src == "signatures" and pid == "C15") or src.startswith("translator crashed")) else others).append(e)
+    res.translation_errors = mine
+    res.other_translation_errors = others
+    if not mine and not res.forbidden and res.failed is None:
+        res.ok = True
+
+
+def pins_changed() -> list[str]:
+    try:
+        return [l for l in open(os.path.join(COQ, "Gen", "PINS_CHANGED.txt")).read().splitlines() if l.strip()]
+    except OSError:
+        return []
+
+
+def auto_targets(pid: str) -> list[str]:
+    """The .vo files the property files import (`From VF Require Import …`), so that everything they need is rebuilt
+    from the regenerated Gen even when a property module forgets to list it."""
+    mods: set[str] = set()
+    for f in property_files(pid):
+        txt = open(os.path.join(COQ, "Properties", f)).read()
+        txt = re.sub(r"\(\*.*?\*\)", "", txt, flags=re.S)
+        for m in re.finditer(r"From VF Require (?:Import|Export)?\s*([^.]+)\.", txt):
+            mods.update(m.group(1).split())
+    out = []
+    for mod in sorted(mods):
+        for sub in ("Num", "Gen", "Spec", "Model", "Proofs"):
+            if os.path.exists(os.path.join(COQ, sub, mod + ".v")) or (sub == "Gen" and mod.startswith("Gen")):
+                out.append(f"{sub}/{mod}.vo")
+                break
+    return out
 
 
 def property_files(pid: str) -> list[str]:
